@@ -114,7 +114,8 @@ def run_family(facts, fam, tier):
         return [r for r in rs if r["clause"] in TEXT_CLAUSES
                 and not (r["status"] != "discharged" and known_text(dkey, "Call:" + what, r["clause"], r.get("info")))]
     if fam.startswith("orm[") or fam.startswith("ormcall["):
-        return O.run_family(c, facts, fam, timeout, "C12", KNOWN)
+        # completeness and refusal clauses only: parameter binding (rel.out / rel.path) is C08's
+        return O.run_family(c, facts, fam, timeout, "C12", KNOWN, clauses=("post.complete", "safety.raise", "decreases", "pre.shape"))
     raise ValueError(fam)
 
 
